@@ -16,6 +16,7 @@ pub fn run(ctx: &Ctx) -> Report {
         Plan { fam: "BASE", styles: two.clone(), debug: both.clone(), stride: 1 },
         Plan { fam: "FENCE", styles: plain.clone(), debug: both.clone(), stride: 1 },
         Plan { fam: "LAB", styles: plain.clone(), debug: both.clone(), stride: 1 },
+        Plan { fam: "NAMES", styles: plain.clone(), debug: both.clone(), stride: 1 },
         Plan { fam: "STR", styles: plain.clone(), debug: both.clone(), stride: 1 },
         // scale family: counts and lengths past 2^5 .. 2^16 (label length, blocks, statements, initialized runs, externals' uses), also spread over > 65536 lines
         Plan { fam: "BIG", styles: vec![(0u64, DEFAULT_SECONDARY), (0u64, 1 + 160 * 4)], debug: both.clone(), stride: 1 },
